@@ -16,9 +16,12 @@ static void tree(const N& n, std::string& out) {
     if (n.IsUint64()) {
       out += 'u';
       out += std::to_string(n.GetUint64());
+      // GetDouble() is legal on every number kind: it must be the conversion of the exact integer
+      if (n.GetDouble() != static_cast<double>(n.GetUint64())) out += "?getdouble";
     } else if (n.IsInt64()) {
       out += 'i';
       out += std::to_string(n.GetInt64());
+      if (n.GetDouble() != static_cast<double>(n.GetInt64())) out += "?getdouble";
     } else if (n.IsDouble()) {
       double d = n.GetDouble();
       uint64_t b;
